@@ -357,13 +357,24 @@ def list_method(ip, st, lref: LRef, name, args, kwargs):
             j = memo[mkey]
         else:
             sure = getattr(ip.task.c, "assume_index_found", False) and getattr(s, "name", "") == "sorted"
+
+            def differs(i):
+                return neg(ip.equals(st, Q.seq_get(s, i), x))
+
             if not sure and st.fork(2) == 1:
+                # ValueError exactly when no element equals x (left unspecified where element equality would fork)
+                try:
+                    st.assume(V.forall(0, n, differs))
+                except Unsupported:
+                    pass
                 _raise(ValueError, "x not in list")
             j = st.fresh_int("idx")
             st.assume(V._cmp(">=", j, 0))
             st.assume(V._cmp("<", j, n))
             try:
                 st.assume(ip.equals(st, Q.seq_get(s, j), x))
+                # ... and it is the FIRST such index, as list.index / list.remove find it
+                st.assume(V.forall(0, j, differs))
             except Unsupported:
                 pass
             memo[mkey] = j
